@@ -181,7 +181,7 @@ class Ctx:
 # identifiers used in replay files.
 # ----------------------------------------------------------------------------------------
 
-def run_pipeline(cx: Ctx, proto, vals, parts, pipeline: str, rng=None, cpp_batch=None, chunk_mode="whole", collect=None):
+def run_pipeline(cx: Ctx, proto, vals, parts, pipeline: str, rng=None, cpp_batch=None, chunk_mode="whole", collect=None, ostate=0):
     """pipeline = hop1>hop2>...; hops: ref.bin, ref.json (source encodings), py.read.bin, py.read.json (terminal),
     py.b2b py.b2j py.j2b py.j2j cpp.b2b cpp.b2j cpp.j2b cpp.j2j (relays), ref.dec (terminal: reference decoder)."""
     env, ns, codec, model = cx.env, cx.ns, cx.codec, cx.model
@@ -265,6 +265,11 @@ def run_pipeline(cx: Ctx, proto, vals, parts, pipeline: str, rng=None, cpp_batch
             nb = cx.cm.copyto[proto.name]
             run = {"proto": proto.name, "op": "relay", "in_fmt": fin, "out_fmt": fout, "input": 0, "batch": cpp_batch or [1] * nb,
                    "chunk_mode": {"whole": 0, "bytewise": 1, "small": 2, "mixed": 3}[chunk_mode], "chunk_seed": 7}
+            if ostate:
+                # the output stream the C++ writer is handed was used by its owner before and is not in its default state
+                # (numeric base, sign display, float notation, a locale with digit grouping, fill character)
+                run["ostate"] = ostate
+                cx.bump("cpp_hops_writing_to_an_ostream_that_is_not_in_its_default_state")
             dec = cx.decoy(proto) if (rng is not None and rng.fork("decoy", hop).chance(0.5)) else None
             if dec is not None:
                 # process history: another protocol's writers and readers were at work in this process before
@@ -651,14 +656,15 @@ def model_task(task, ybin, root, prop):
                         batch = [r.choice([1, 2, 3, 64]) for _ in range(cm.copyto[proto.name])]
                     cx.bump("runs")
                     cx.last_collect = None
+                    ostate = r.fork("ostate", pl).choice([1, 2, 3, 4, 5, 6]) if (cm is not None and "cpp." in pl and r.fork("ostate?", pl).chance(0.3)) else 0
                     try:
                         # a long stream is always gathered before it is inspected: that is the history it was made for
-                        why = run_pipeline(cx, proto, vals, parts, pl, r.fork("chunks", pl), batch, mode, collect=True if long_stream else None)
+                        why = run_pipeline(cx, proto, vals, parts, pl, r.fork("chunks", pl), batch, mode, collect=True if long_stream else None, ostate=ostate)
                     except runner.Hang as e:
                         why = "%s" % e
                     if why:
                         rec = classify(prop, pl, why)
-                        cx.violation(rec, proto, vals, parts, pl, why, {"cpp_batch": batch, "chunk_mode": mode, "collect": cx.last_collect})
+                        cx.violation(rec, proto, vals, parts, pl, why, {"cpp_batch": batch, "chunk_mode": mode, "collect": cx.last_collect, "ostate": ostate})
                 cases.append(([prop, i, proto.name, rep], True))
             extra_checks(cx, proto, pr, quick)
     finally:
